@@ -372,6 +372,40 @@ class Demand(Contract):
                 "one_non_negative_value_per_month": And(V(length(V(unwrap(res)[1]).kcals) == N), *[g >= 0 for g in got])}
 
 
+class DemandSchedules(Contract):
+    """get_biofuels_and_feed_from_delayed_shutoff: each schedule is shut off at ITS OWN configured month (the two
+    shut-off months differ in the short / long delayed presets), distinct baselines for feed and biofuel."""
+    prop = "C08"
+    file = FB
+    func = "FeedAndBiofuels.get_biofuels_and_feed_from_delayed_shutoff"
+    merge = True
+    np_floats = True
+
+    def __init__(self, N, feed_months, biofuel_months):
+        self.N, self.fm, self.bm = N, feed_months, biofuel_months
+        self.name = f"N{N},feed_shutoff{feed_months},biofuel_shutoff{biofuel_months}"
+
+    def inputs(self, S):
+        kf, kb = S.real("FEED_KCALS"), S.real("BIOFUEL_KCALS")
+        others = [S.real(n) for n in ("ff", "fp", "bf", "bp")]
+        S.assume(And(kf >= 0, kb >= 0, *[x >= 0 for x in others]))
+        S.set_conversions(S.real("kd"), S.real("fd"), S.real("pd"), False, False, S.real("pop"))
+        consts = {"NMONTHS": self.N, "BIOFUEL_KCALS": unwrap(kb), "BIOFUEL_FAT": unwrap(others[2]), "BIOFUEL_PROTEIN": unwrap(others[3]),
+                  "FEED_KCALS": unwrap(kf), "FEED_FAT": unwrap(others[0]), "FEED_PROTEIN": unwrap(others[1]),
+                  "DELAY": {"FEED_SHUTOFF_MONTHS": self.fm, "BIOFUEL_SHUTOFF_MONTHS": self.bm}}
+        calls = [dict(file=FB, func="FeedAndBiofuels", args=[consts]), dict(file=FB, func=self.func, args=[Ref(0), consts])]
+        return dict(calls=calls, kf=kf, kb=kb)
+
+    def ensures(self, S, a, res):
+        N = self.N
+        bio, feed = unwrap(res)[1]
+        gb, gf = seq(V(bio).kcals, N), seq(V(feed).kcals, N)
+        mb, mf = a["kb"] / 12 * 4 * 10 ** 6 / 10 ** 9, a["kf"] / 12 * 4 * 10 ** 6 / 10 ** 9
+        return {"biofuel_demand_is_baseline_until_the_biofuel_shut_off_month_then_zero": [gb[m] == (mb if m < self.bm else 0) for m in range(N)],
+                "feed_demand_is_baseline_until_the_feed_shut_off_month_then_zero": [gf[m] == (mf if m < self.fm else 0) for m in range(N)],
+                "one_value_per_month": V(length(V(bio).kcals) == N and length(V(feed).kcals) == N)}
+
+
 def _mk():
     cs = []
     for N in HORIZONS:
@@ -390,6 +424,9 @@ def _mk():
         for dur in (0, 1, 3, N):
             cs.append(Demand("feed", N, dur))
             cs.append(Demand("biofuel", N, dur))
+        # the shipped presets: immediate, one month, short delayed (2, 1), long delayed (3, 2), after-10-percent (12, 6), continued
+        for fm, bm in ((0, 0), (1, 1), (2, 1), (3, 2), (12, 6), (N, N)):
+            cs.append(DemandSchedules(N, fm, bm))
     return cs
 
 
